@@ -65,11 +65,12 @@ pub fn well_formed(text: &str, folds: &[(u64, u64)]) -> Result<(), String> {
 
 pub fn expected_folds(p: &RProgram, pr: &Printed, r: &Rendered) -> Vec<(u64, u64)> {
     let mut exp = vec![];
+    let ix = lsptext::LineIndex::new(&r.text);
     for (di, d) in p.decls.iter().enumerate() {
         if let RDecl::Proc { .. } = d {
             let (a, b) = pr.decl_spans[di];
-            let start = lsptext::position(&r.text, r.tok_ranges[a].0).0 as u64;
-            let end = lsptext::position(&r.text, r.tok_ranges[b - 1].0).0 as u64;
+            let start = ix.position(r.tok_ranges[a].0).0 as u64;
+            let end = ix.position(r.tok_ranges[b - 1].0).0 as u64;
             exp.push((start, end));
         }
     }
@@ -78,15 +79,7 @@ pub fn expected_folds(p: &RProgram, pr: &Printed, r: &Rendered) -> Vec<(u64, u64
 
 pub fn eval_program(p: &RProgram, pr: &Printed, r: &Rendered) -> Result<(), (String, String)> {
     let folds = fold_request(&r.text).map_err(|e| ("error".to_string(), e))?;
-    let mut exp = vec![];
-    for (di, d) in p.decls.iter().enumerate() {
-        if let RDecl::Proc { .. } = d {
-            let (a, b) = pr.decl_spans[di];
-            let start = lsptext::position(&r.text, r.tok_ranges[a].0).0 as u64;
-            let end = lsptext::position(&r.text, r.tok_ranges[b - 1].0).0 as u64;
-            exp.push((start, end));
-        }
-    }
+    let exp = expected_folds(p, pr, r);
     if folds != exp {
         return Err(("extent".into(), format!("got {:?}, expected {:?}", folds, exp)));
     }
@@ -169,6 +162,28 @@ pub fn run(tier: Tier) -> Report {
             out
         })
         .collect();
+    // programs far beyond the small bounds: 2 500 / 9 000 statements (70 KB / 250 KB; in the
+    // token-per-line layouts more than 65 536 lines), every line-end convention
+    {
+        let sizes: &[usize] = if tier == Tier::Quick { &[2500] } else { &[2500, 9000] };
+        let hf: Vec<Failure> = sizes
+            .par_iter()
+            .flat_map_iter(|n| {
+                let prog = crate::progs::scale_program(40, 40, *n);
+                let pr = print_program(&prog);
+                let mut out = vec![];
+                for layout in [Layout::Lines, Layout::Crlf, Layout::Cr, Layout::Pretty, Layout::Minimal] {
+                    let r = render(&pr.toks, layout, &[], &comment_text);
+                    evals.fetch_add(1, Ordering::Relaxed);
+                    if let Err((kind, detail)) = eval_program(&prog, &pr, &r) {
+                        out.push(Failure { key: format!("fold:{}:{:?}:huge-document", kind, layout), case: json!({"huge": {"statements": n}, "layout": format!("{:?}", layout)}), detail: truncate(&detail, 600) });
+                    }
+                }
+                out
+            })
+            .collect();
+        fails.extend(hf);
+    }
     let n_valid = evals.load(Ordering::Relaxed);
     // well-formedness on arbitrary documents
     let toks = Strings::new(SIGMA_TOK, tier.pick(3, 4));
@@ -202,6 +217,17 @@ pub fn run(tier: Tier) -> Report {
 }
 
 pub fn replay(case: &Value) -> Vec<Failure> {
+    if let Some(n) = case["huge"]["statements"].as_u64() {
+        // a generated large program: re-generated, not stored
+        let prog = crate::progs::scale_program(40, 40, n as usize);
+        let pr = print_program(&prog);
+        let layout = layout_by_name(case["layout"].as_str().unwrap_or("Lines")).unwrap_or(Layout::Lines);
+        let r = render(&pr.toks, layout, &[], &comment_text);
+        return match eval_program(&prog, &pr, &r) {
+            Ok(()) => vec![],
+            Err((k, d)) => vec![Failure { key: format!("fold:{}:huge-document", k), case: case.clone(), detail: truncate(&d, 600) }],
+        };
+    }
     let t = case["text"].as_str().unwrap_or("");
     match fold_request(t) {
         Err(e) => vec![Failure { key: "fold:error".into(), case: case.clone(), detail: e }],
